@@ -371,3 +371,38 @@ Proof. vm_compute. repeat split. Qed.
 Example ex_f64_to_int :
   f64_to_int 4617315517961601024 = 5 /\ f64_to_int 13837628687431468646 = -3 /\ f64_to_int 4602678819172646912 = 0.
 Proof. vm_compute. auto. Qed.
+
+(* ---- the client's fetch over a segmented body ---- *)
+Lemma fetch_concat dt : forall segs acc, fetch segs dt acc = (acc ++ List.concat segs)%list.
+Proof.
+  induction segs as [|s t IH]; intros acc; cbn [fetch List.concat]; [now rewrite app_nil_r|].
+  destruct t as [|s2 t'].
+  - cbn [List.concat]. rewrite app_nil_r. destruct dt; [reflexivity|]. cbn [fetch]. reflexivity.
+  - rewrite IH. now rewrite <- app_assoc.
+Qed.
+
+(* however the transport splits the body, and whether the end arrives with or after the last
+   bytes, apiGet holds the whole body: two deliveries of the same bytes are indistinguishable *)
+Lemma fetch_segmentation segs1 segs2 dt1 dt2 :
+  List.concat segs1 = List.concat segs2 -> fetch segs1 dt1 [] = fetch segs2 dt2 [].
+Proof. intros H. rewrite !fetch_concat. cbn. exact H. Qed.
+
+Lemma cut_body_concat : forall lens d, List.concat (cut_body lens d) = d.
+Proof.
+  induction lens as [|l t IH]; intros d; cbn [cut_body].
+  - destruct d; cbn; [reflexivity|now rewrite app_nil_r].
+  - destruct l as [n| |]; try apply IH.
+    unfold takeN. destruct (take (N.to_nat (Z.to_N n)) d) as [[a r]|] eqn:E.
+    + cbn [List.concat]. rewrite IH. clear IH. revert d a r E. induction (N.to_nat (Z.to_N n)) as [|k IHk]; intros d a r E; cbn in E.
+      * inversion E; reflexivity.
+      * destruct d as [|x d]; [discriminate|]. destruct (take k d) as [[a' r']|] eqn:E'; [|discriminate].
+        inversion E; subst. cbn. f_equal. eapply IHk; eauto.
+    + destruct d; cbn; [reflexivity|now rewrite app_nil_r].
+Qed.
+
+(* the body the model's client fetches in the correspondence run is the wire body *)
+Lemma fetched_wire fx w got : fetched fx w = Some got -> got = w.
+Proof.
+  unfold fetched. destruct fx as [| |[|[z| |] [|[z2| |] lens]]]; try discriminate.
+  intros H. inversion H. rewrite fetch_concat. cbn. apply cut_body_concat.
+Qed.
